@@ -203,10 +203,11 @@ impl BuildSystem {
         if config.should_force() {
             self.logger.verbose("Force flag set, regenerating bindings");
         } else {
-            match GenerationCache::needs_regeneration(
+            match GenerationCache::needs_regeneration_with_events(
                 &config.output_path,
                 &commands,
                 discovered_structs,
+                analyzer.get_discovered_events(),
                 config,
             ) {
                 Ok(false) => {
@@ -252,7 +253,12 @@ impl BuildSystem {
         }
 
         // Save cache after successful generation
-        let cache = GenerationCache::new(&commands, discovered_structs, config)?;
+        let cache = GenerationCache::with_events(
+            &commands,
+            discovered_structs,
+            analyzer.get_discovered_events(),
+            config,
+        )?;
         if let Err(e) = cache.save(&config.output_path) {
             self.logger
                 .warning(&format!("Failed to save generation cache: {}", e));
